@@ -2,6 +2,7 @@
 namespace Larking.Expected.C12
 
 def conds_state_clone : List String := [
+   "func (*state) clone() *state",
    "if s == nil",
    "return &state{ path: newPath(), conns: make(map[*grpc.ClientConn]connList), handlers: make(map[string][]*handler), }",
    "range s.conns",
@@ -17,6 +18,7 @@ def stmts_state_clone : List String := [
   ]
 
 def conds_path_clone : List String := [
+   "func (*path) clone() *path",
    "if p == nil",
    "return pc",
    "range p.segments",
@@ -35,6 +37,7 @@ def stmts_path_clone : List String := [
   ]
 
 def conds_state_removeHandler : List String := [
+   "func (*state) removeHandler(cc *grpc.ClientConn) bool",
    "if !ok",
    "return ok",
    "range cl.handlers",
@@ -56,6 +59,7 @@ def stmts_state_removeHandler : List String := [
   ]
 
 def conds_state_appendHandler : List String := [
+   "func (*state) appendHandler( opts muxOptions, desc protoreflect.MethodDescriptor, h *handler, ) error",
    "if err := s.path.addRule(implicitRule, desc, h.method); err != nil",
    "range opts.httprules.getRules(name)",
    "if err := s.path.addRule(rule, desc, h.method); err != nil",
@@ -78,6 +82,7 @@ def stmts_state_appendHandler : List String := [
   ]
 
 def conds_Mux_registerService : List String := [
+   "func (*Mux) registerService(gsd *grpc.ServiceDesc, ss interface{}) error",
    "defer m.mu.Unlock()",
    "if err != nil",
    "return err",
@@ -132,6 +137,7 @@ def stmts_Mux_registerService : List String := [
   ]
 
 def conds_Mux_RegisterConn : List String := [
+   "func (*Mux) RegisterConn(ctx context.Context, cc *grpc.ClientConn) error",
    "if err != nil",
    "return err",
    "defer m.mu.Unlock()",
@@ -151,6 +157,7 @@ def stmts_Mux_RegisterConn : List String := [
   ]
 
 def conds_Mux_DropConn : List String := [
+   "func (*Mux) DropConn(ctx context.Context, cc *grpc.ClientConn) bool",
    "defer m.mu.Unlock()",
    "if ok",
    "return ok"
@@ -165,9 +172,12 @@ def stmts_Mux_DropConn : List String := [
   ]
 
 def conds_Mux_loadState : List String := [
+   "func (*Mux) loadState() *state",
    "return s"
   ]
 
-def conds_Mux_storeState : List String := []
+def conds_Mux_storeState : List String := [
+   "func (*Mux) storeState(s *state)"
+  ]
 
 end Larking.Expected.C12
